@@ -348,6 +348,20 @@ ActionsExactlyOnce ==
                  \/ (Count(ran, a) = 1 /\ a \notin Range(actions))
                  \/ (Count(ran, a) = 0 /\ a \in gdrop /\ a \notin Range(actions))
                  \/ (Count(ran, a) = 0 /\ a \in Range(actions) /\ events # {})
+(* What frappy/server.py assumes of interfaces_started.wait() / start_events.wait() followed by waiting_for()    *)
+(* (all triggers created beforehand by the main thread with the default time-out, fired by other threads):       *)
+(*   S1  neither call raises                                             NoError                                   *)
+(*   S2  the wait ends by itself, at the largest start deadline           ServerProceeds (a blocked wait has a      *)
+(*       at the latest, whatever the other threads do                     limit), WaitNotLate, Termination in the   *)
+(*                                                                        scenario `late` (a trigger fires too late)*)
+(*   S3  True means every module has reported, False comes not before     WaitTrueEmpty, WaitFalseNotEarly,         *)
+(*       the deadline (no warning although everything is fine)            NoLostWakeup                              *)
+(*   S4  after False, waiting_for() names exactly the modules that have   WaitingForExact                           *)
+(*       not reported at that moment                                                                                *)
+(* The same statements are checked on the real class in the scenarios server, server3, server_late, iface, router  *)
+(* of harness/props/x04.py (the real Server start is driven by C15).                                                *)
+ServerProceeds == (DOMAIN InitEv # {} /\ \A e \in DOMAIN InitEv : InitEv[e] # Inf) =>
+                     \A th \in Threads : (pc[th] = "w_blk" /\ events \subseteq DOMAIN InitEv) => loc[th].until # Inf
 (* liveness (FairSpec): every thread gets through its script when all events end up set *)
 Termination == <>AllDone
 
